@@ -3,6 +3,7 @@
 
 mod c08;
 mod c12;
+mod c14;
 mod driver;
 mod sim;
 mod util;
@@ -37,6 +38,15 @@ impl Engine for ClusterSimEngine {
             real_components: &["sierradb_cluster::write::replicate::PartitionReplicatorActor (buffer_write, pop_next_buffered_write, write_transaction, detect_and_handle_gaps, PartitionSyncResponse)", "OrderedQueue / TimeoutOrderedQueue", "ConfirmationActor", "sierradb::Database", "kameo local actors and mailboxes", "tokio paused clock"],
             stub_components: &["the coordinator (simulator) and the network: catch-up requests go to the transport seam", "ClusterActor's sender/staleness checks in front of the replicator are not run here", "failsafe breaker inside the replicator reads the real monotonic clock"],
             assumptions: &["the first write applied at a sequence defines that sequence (a conflicting write that arrives first is a legitimate transaction)"],
+        }, PropertyInfo {
+            id: "C14",
+            level: "exploration",
+            rule: "per run a configuration (N in 1..12 or {255,256,257,300,512,1000}, buckets, partitions, rf 1..12) and 1-5 live nodes with boundary-biased configured indices, each a real topology Behaviour around a real TopologyManager; a PRNG sequence of connection up/down (real FromSwarm events), silent partitions, node restarts with a new alive_since, and time advances that fire the real heartbeat and timeout intervals; every published message is broadcast over the simulated bus with per-recipient delay, loss and reordering. After every delivery/tick: each node's replica set of every partition is exactly the owners among the nodes it knows live (itself included), no duplicates, at most min(rf,N); any two nodes with identical membership knowledge hold identical replica sets and identical get_available_replicas order. After faults stop and all nodes are connected: membership converges within two heartbeat rounds and all nodes agree. Static part (1 in 3 runs and all large N): over all N configured nodes every partition has exactly min(rf,N) owners and, with all members known, its replica set is exactly those owners. Non-trivial = at least 3 live nodes and at least two ownership messages delivered.",
+            quick_runs: 3000,
+            thorough_runs: 120000,
+            real_components: &["sierradb_topology::TopologyManager", "sierradb_topology::Behaviour message glue (heartbeat/ownership encode+decode, add_explicit_peer, ConnectionEstablished/Closed handling, heartbeat and timeout intervals via poll)", "tokio paused clock", "libp2p gossipsub Behaviour object (constructed, connection bookkeeping only)"],
+            stub_components: &["gossipsub message propagation and the libp2p swarm/transport (simulated bus delivers the published bytes)", "wall/monotonic clock (simulated through the hook shim)"],
+            assumptions: &["a published message reaches every node connected to the sender through links that are up (gossip mesh), at most once"],
         }]
     }
 
@@ -44,6 +54,7 @@ impl Engine for ClusterSimEngine {
         match prop {
             "C08" => c08::plan(tier, run_seed),
             "C12" => c12::plan(tier, run_seed),
+            "C14" => c14::plan(tier, run_seed),
             _ => unreachable!(),
         }
     }
@@ -52,6 +63,7 @@ impl Engine for ClusterSimEngine {
         match prop {
             "C08" => c08::execute(plan),
             "C12" => c12::execute(plan),
+            "C14" => c14::execute(plan),
             _ => unreachable!(),
         }
     }
